@@ -79,7 +79,7 @@ def leadOutLoop (tol : Tol) (bursts : List (Int × Int)) (lenLo : Nat) (totalTim
           match loHalfBit tol bursts lenLo i burst e with
           | some sp => leadOutLoop tol bursts lenLo totalTime es (i + 1) code' (half ++ [sp]) (cleaned ++ [some e])
           | none =>
-            if isMatch tol e (totalTime + (if burst < 0 then -burst else burst)) then
+            if i + 1 == lenLo && isMatch tol e (totalTime + (if burst < 0 then -burst else burst)) then
               leadOutLoop tol bursts lenLo totalTime es (i + 1) code' half (cleaned ++ [none])
             else if cleaned.isEmpty then
               match loFallback tol bursts burst e with
